@@ -34,7 +34,8 @@ type CV3 struct {
 
 type cinst struct {
 	tasks  int
-	chain  int // 1: V1->V2; 2: V1->V2->V3
+	clear  bool // one more task calls ClearUpcasts concurrently
+	chain  int  // 1: V1->V2; 2: V1->V2->V3
 	rec    h.Rec
 	status string
 }
@@ -68,6 +69,9 @@ func (ci *cinst) Body() {
 			})
 		})
 	}
+	if ci.clear {
+		vrt.Go(func() { bus.ClearUpcasts() })
+	}
 	vrt.Join()
 }
 
@@ -77,6 +81,9 @@ func (ci *cinst) Outcome() string { return ci.status }
 func (ci *cinst) Check(res *vrt.Result) []vrt.Violation {
 	ci.status = res.Status.String()
 	name := fmt.Sprintf("%d concurrent upcasting replays, typed chain of %d", ci.tasks, ci.chain)
+	if ci.clear {
+		name += ", concurrent ClearUpcasts"
+	}
 	vs := vrt.StatusViolations(name, res)
 	if res.Status != vrt.StatusOK {
 		return vs
@@ -97,6 +104,16 @@ func (ci *cinst) Check(res *vrt.Result) []vrt.Violation {
 			vs = append(vs, vrt.Violation{Kind: "data-changed", Sig: "concurrent replays: the event handed to a ReplayWithUpcast callback changed while the callback was running (typed upcaster)", Detail: name + "\n" + e.S + "\n" + ci.rec.String()})
 		case "cb":
 			seen[e.A]++
+			if ci.clear && e.B < len(ids) {
+				// with a concurrent ClearUpcasts an event is either upcast through the whole
+				// chain (the clear came later) or left untouched (it came first) - never in between
+				raw, _ := json.Marshal(CV1{ID: ids[e.B]})
+				untouched := eventbus.EventType(CV1{}) + " " + string(raw)
+				if !jsonSame(e.S, want(e.B)) && !jsonSame(e.S, untouched) {
+					vs = append(vs, vrt.Violation{Kind: "partial-chain", Sig: "concurrent ClearUpcasts: a ReplayWithUpcast callback saw a partly upcast event (neither the whole chain nor the stored event)", Detail: fmt.Sprintf("%s\nevent %d: saw %s\n%s", name, e.B, e.S, ci.rec.String())})
+				}
+				continue
+			}
 			if e.B < len(ids) && !jsonSame(e.S, want(e.B)) {
 				vs = append(vs, vrt.Violation{Kind: "wrong-data", Sig: "concurrent replays: a ReplayWithUpcast callback saw data other than the composed upcast of its stored event (typed upcaster)", Detail: fmt.Sprintf("%s\nevent %d: saw %s want %s\n%s", name, e.B, e.S, want(e.B), ci.rec.String())})
 			}
@@ -135,6 +152,10 @@ func concurrentScenarios(thorough bool) []vrt.Scenario {
 	for _, s := range shapes {
 		s := s
 		l = append(l, vrt.Scenario{Name: fmt.Sprintf("concurrent-replays-%dx-chain%d", s[0], s[1]), New: func() vrt.Instance { return &cinst{tasks: s[0], chain: s[1]} }})
+	}
+	l = append(l, vrt.Scenario{Name: "replay-vs-clearupcasts-chain2", New: func() vrt.Instance { return &cinst{tasks: 1, chain: 2, clear: true} }})
+	if thorough {
+		l = append(l, vrt.Scenario{Name: "2-replays-vs-clearupcasts-chain2", New: func() vrt.Instance { return &cinst{tasks: 2, chain: 2, clear: true} }})
 	}
 	return l
 }
